@@ -20,6 +20,7 @@
     documented at `scanFormat` / `scanPercent`; everything else is `none` (= not modelled).
 -/
 import Ptk.Py
+set_option linter.unusedVariables false
 namespace Ptk.C18
 open Ptk.Py
 
@@ -102,29 +103,28 @@ def toFormattedText : AnyFT → Text → Frags
 /-- `to_plain_text(value)` -/
 def toPlainText (v : AnyFT) : Text := fragText (toFormattedText v [])
 
-/-- `s.split(sep)` for a non-empty literal separator. -/
-def splitOnSub (sep : Text) : Text → List Text
-  | [] => [[]]
-  | x :: xs =>
-    if isPrefixOf' sep (x :: xs) && !sep.isEmpty then
-      [] :: splitOnSubAux sep (sep.length - 1) xs
-    else match splitOnSub sep xs with
-      | [] => [[x]]
+/-- `s.split(sep)` for a non-empty literal separator; `skip` = characters of an already matched
+    separator still to be skipped. -/
+def splitOnSubGo (sep : Text) : Nat → Text → List Text
+  | _, [] => [[]]
+  | skip + 1, _ :: xs => splitOnSubGo sep skip xs
+  | 0, x :: xs =>
+    if isPrefixOf' sep (x :: xs) && !sep.isEmpty then [] :: splitOnSubGo sep (sep.length - 1) xs
+    else match splitOnSubGo sep 0 xs with
+      | [] => [[x]]            -- unreachable
       | l :: ls => (x :: l) :: ls
-where
-  /-- skip `k` more characters of the separator, then continue -/
-  splitOnSubAux (sep : Text) : Nat → Text → List Text
-    | 0, t => splitOnSub sep t
-    | _ + 1, [] => [[]]
-    | k + 1, _ :: t => splitOnSubAux sep k t
+
+def splitOnSub (sep : Text) (t : Text) : List Text := splitOnSubGo sep 0 t
+
+def bracePair : Text := ['{', '}']
 
 /-- `Template(text).format(*values)()`; `none` = AssertionError -/
 def templateFormat (text : Text) (values : List AnyFT) : Option Frags :=
   if (findSub? "{0}".toList text).isSome then none else
-  let parts := splitOnSub "{}".toList text
+  let parts := splitOnSub bracePair text
   if parts.length - 1 ≠ values.length then none else
-  let body := (parts.zip values).flatMap fun (p, v) =>
-    ({ style := [], text := p } : Frag) :: toFormattedText v []
+  let body := (parts.zip values).flatMap fun pv =>
+    ({ style := [], text := pv.1 } : Frag) :: toFormattedText pv.2 []
   some (body ++ [{ style := [], text := parts.getLast?.getD [] }])
 
 /-- `merge_formatted_text(items)()` -/
@@ -158,6 +158,57 @@ def hex2 (n : Nat) : Text :=
   let d := Nat.toDigits 16 n
   if d.length < 2 then '0' :: d else d
 
+/-- the `elif attr == 1: … elif not attr:` chain of `_select_graphic_rendition`
+    (`none` = no branch taken) -/
+def sgrFlag (a : Attrs) (attr : Nat) : Option Attrs :=
+  match attr with
+  | 1 => some { a with bold := true }
+  | 3 => some { a with italic := true }
+  | 4 => some { a with underline := true }
+  | 5 => some { a with blink := true }
+  | 6 => some { a with blink := true }
+  | 7 => some { a with reverse := true }
+  | 8 => some { a with hidden := true }
+  | 9 => some { a with strike := true }
+  | 22 => some { a with bold := false }
+  | 23 => some { a with italic := false }
+  | 24 => some { a with underline := false }
+  | 25 => some { a with blink := false }
+  | 27 => some { a with reverse := false }
+  | 28 => some { a with hidden := false }
+  | 29 => some { a with strike := false }
+  | 0 => some {}
+  | _ => none
+
+/-- `if n == 5 and len(attrs) >= 1:` — 256 colours (`n` already popped, `rest1` is what is left) -/
+def sgr256 (tb : Tables) (a : Attrs) (attr n : Nat) (rest1 : List Nat) : Attrs × List Nat :=
+  if n = 5 ∧ rest1.length ≥ 1 then
+    match rest1 with
+    | [] => (a, rest1)   -- unreachable
+    | m :: r2 =>
+      if attr = 38 then ({ a with color := lookup tb.c256 m }, r2)
+      else ({ a with bgcolor := lookup tb.c256 m }, r2)
+  else (a, rest1)
+
+/-- `if n == 2 and len(attrs) >= 3:` — true colours -/
+def sgrTrue (a : Attrs) (attr n : Nat) (rest2 : List Nat) : Attrs × List Nat :=
+  if n = 2 ∧ rest2.length ≥ 3 then
+    match rest2 with
+    | r :: g :: b :: r3 =>
+      let cs := '#' :: (hex2 r ++ hex2 g ++ hex2 b)
+      if attr = 38 then ({ a with color := some cs }, r3)
+      else ({ a with bgcolor := some cs }, r3)
+    | _ => (a, rest2)   -- unreachable
+  else (a, rest2)
+
+/-- the branch `elif attr in (38, 48) and len(attrs) > 1:` -/
+def sgrExt (tb : Tables) (a : Attrs) (attr : Nat) (rest : List Nat) : Attrs × List Nat :=
+  match rest with
+  | [] => (a, rest)   -- unreachable
+  | n :: rest1 =>
+    let p := sgr256 tb a attr n rest1
+    sgrTrue p.1 attr n p.2
+
 /-- One iteration of the `while attrs:` loop of `_select_graphic_rendition`:
     `attr` has been popped, `rest` is what is left; returns the new attributes and what is
     left afterwards. -/
@@ -168,44 +219,10 @@ def sgrOne (tb : Tables) (a : Attrs) (attr : Nat) (rest : List Nat) : Attrs × L
   match lookup tb.bg attr with
   | some c => ({ a with bgcolor := some c }, rest)
   | none =>
-  if attr = 1 then ({ a with bold := true }, rest)
-  else if attr = 3 then ({ a with italic := true }, rest)
-  else if attr = 4 then ({ a with underline := true }, rest)
-  else if attr = 5 then ({ a with blink := true }, rest)
-  else if attr = 6 then ({ a with blink := true }, rest)
-  else if attr = 7 then ({ a with reverse := true }, rest)
-  else if attr = 8 then ({ a with hidden := true }, rest)
-  else if attr = 9 then ({ a with strike := true }, rest)
-  else if attr = 22 then ({ a with bold := false }, rest)
-  else if attr = 23 then ({ a with italic := false }, rest)
-  else if attr = 24 then ({ a with underline := false }, rest)
-  else if attr = 25 then ({ a with blink := false }, rest)
-  else if attr = 27 then ({ a with reverse := false }, rest)
-  else if attr = 28 then ({ a with hidden := false }, rest)
-  else if attr = 29 then ({ a with strike := false }, rest)
-  else if attr = 0 then ({}, rest)
-  else if (attr = 38 ∨ attr = 48) ∧ rest.length > 1 then
-    match rest with
-    | [] => (a, rest)   -- unreachable
-    | n :: rest1 =>
-      -- 256 colours
-      let (a1, rest2) :=
-        if n = 5 ∧ rest1.length ≥ 1 then
-          match rest1 with
-          | [] => (a, rest1)   -- unreachable
-          | m :: r2 =>
-            if attr = 38 then ({ a with color := lookup tb.c256 m }, r2)
-            else ({ a with bgcolor := lookup tb.c256 m }, r2)
-        else (a, rest1)
-      -- true colours
-      if n = 2 ∧ rest2.length ≥ 3 then
-        match rest2 with
-        | r :: g :: b :: r3 =>
-          let cs := '#' :: (hex2 r ++ hex2 g ++ hex2 b)
-          if attr = 38 then ({ a1 with color := some cs }, r3)
-          else ({ a1 with bgcolor := some cs }, r3)
-        | _ => (a1, rest2)   -- unreachable
-      else (a1, rest2)
+  match sgrFlag a attr with
+  | some a' => (a', rest)
+  | none =>
+  if (attr = 38 ∨ attr = 48) ∧ rest.length > 1 then sgrExt tb a attr rest
   else (a, rest)
 
 /-- the `while attrs:` loop; `fuel` bounds the number of iterations (each pops ≥ 1 element) -/
@@ -396,23 +413,6 @@ def spanField : Text → Option (Text × Text)
     else if c = '{' then none
     else (spanField cs).map fun (f, r) => (c :: f, r)
 
-theorem spanField_length {t f r : Text} (h : spanField t = some (f, r)) : r.length < t.length := by
-  induction t generalizing f r with
-  | nil => simp [spanField] at h
-  | cons c cs ih =>
-    unfold spanField at h
-    split at h
-    · simp at h; rw [← h.2]; simp
-    · split at h
-      · simp at h
-      · cases hs : spanField cs with
-        | none => simp [hs] at h
-        | some p =>
-          obtain ⟨f', r'⟩ := p
-          simp [hs] at h
-          have := ih hs
-          rw [← h.2]; simp; omega
-
 def pushLit (c : Char) : List Item → List Item
   | .lit t :: rest => .lit (c :: t) :: rest
   | items => .lit [c] :: items
@@ -428,39 +428,36 @@ def scanFieldBody (f : Text) : Option Item :=
 
 /-- `string.Formatter.parse(format_string)` on the sub-grammar
     literal | `{{` | `}}` | `{` [digits] [`:` spec] `}` ;
-    `some (.error .value)` = the ValueError for a single brace; `none` = not modelled. -/
-def scanFormat (t : Text) : Option (Except Err (List Item)) :=
-  match t with
-  | [] => some (.ok [])
-  | '{' :: '{' :: rest =>
-    match scanFormat rest with
+    `none` = not modelled (single braces, conversions, nested or keyword fields).
+    `fuel` bounds the number of iterations (each consumes at least one character). -/
+def scanFormatGo : Nat → Text → Option (Except Err (List Item))
+  | 0, _ => none
+  | _ + 1, [] => some (.ok [])
+  | fuel + 1, '{' :: '{' :: rest =>
+    match scanFormatGo fuel rest with
     | some (.ok items) => some (.ok (pushLit '{' items))
     | r => r
-  | '}' :: '}' :: rest =>
-    match scanFormat rest with
+  | fuel + 1, '}' :: '}' :: rest =>
+    match scanFormatGo fuel rest with
     | some (.ok items) => some (.ok (pushLit '}' items))
     | r => r
-  | '}' :: _ => none   -- error position depends on what precedes: not modelled
-  | '{' :: rest =>
-    match h : spanField rest with
+  | _ + 1, '}' :: _ => none
+  | fuel + 1, '{' :: rest =>
+    match spanField rest with
     | none => none
     | some (f, r) =>
       match scanFieldBody f with
       | none => none
       | some it =>
-        match scanFormat r with
+        match scanFormatGo fuel r with
         | some (.ok items) => some (.ok (it :: items))
         | x => x
-  | c :: rest =>
-    match scanFormat rest with
+  | fuel + 1, c :: rest =>
+    match scanFormatGo fuel rest with
     | some (.ok items) => some (.ok (pushLit c items))
     | r => r
-termination_by t.length
-decreasing_by
-  all_goals simp_wf
-  all_goals (try omega)
-  have := spanField_length h
-  omega
+
+def scanFormat (t : Text) : Option (Except Err (List Item)) := scanFormatGo (t.length + 1) t
 
 /-- `format(value, spec)` for a `str` value -/
 def fmtStr (v : Text) (s : Spec) : Text :=
@@ -474,8 +471,17 @@ def fmtStr (v : Text) (s : Spec) : Text :=
     | .center => pad / 2
   List.replicate l s.fill ++ v ++ List.replicate (pad - l) s.fill
 
-/-- `Formatter._vformat` : auto numbering state is `none` before the first field,
-    `some (some k)` = automatic with next index k, `some none` = manual. -/
+/-- field numbering of `Formatter._vformat`: the state is `none` before the first field,
+    `some (some k)` = automatic with next index k, `some none` = manual.  Returns the argument
+    index and the new state; ValueError when switching between the two. -/
+def selectArg : Option Nat → Option (Option Nat) → Except Err (Nat × Option (Option Nat))
+  | none, some none => .error .value          -- manual → automatic
+  | none, some (some k) => .ok (k, some (some (k + 1)))
+  | none, none => .ok (0, some (some 1))
+  | some _, some (some _) => .error .value    -- automatic → manual
+  | some i, _ => .ok (i, some none)
+
+/-- `Formatter._vformat` -/
 def renderFormat (esc : Text → Text) (args : List Text) :
     Option (Option Nat) → List Item → Except Err Text
   | _, [] => .ok []
@@ -483,14 +489,7 @@ def renderFormat (esc : Text → Text) (args : List Text) :
     let r ← renderFormat esc args st rest
     pure (t ++ r)
   | st, .hole idx spec :: rest =>
-    let sel : Except Err (Nat × Option (Option Nat)) :=
-      match idx, st with
-      | none, some none => .error .value          -- manual → automatic
-      | none, some (some k) => .ok (k, some (some (k + 1)))
-      | none, none => .ok (0, some (some 1))
-      | some _, some (some _) => .error .value    -- automatic → manual
-      | some i, _ => .ok (i, some none)
-    match sel with
+    match selectArg idx st with
     | .error e => .error e
     | .ok (i, st') =>
       match args[i]? with
@@ -522,95 +521,48 @@ def pushPLit (c : Char) : List PItem → List PItem
   | .lit t :: rest => .lit (c :: t) :: rest
   | items => .lit [c] :: items
 
-/-- after `%`: `[-][width][.prec]s`; returns the spec and the rest -/
-def scanPSpec (t : Text) : Option (PSpec × Text) :=
-  let (la, t) := match t with
-    | '-' :: r => (true, r)
-    | _ => (false, t)
-  let (w, r) := spanDigits t
+/-- after `%[-]`: `[width][.prec]s`; returns the spec and the rest -/
+def scanPSpecBody (la : Bool) (t : Text) : Option (PSpec × Text) :=
+  let w := (spanDigits t).1
+  let r := (spanDigits t).2
   if w.head? = some '0' then none else
   let width := digitsToNat w
   match r with
   | 's' :: r1 => some ({ leftAdj := la, width, prec := none }, r1)
   | '.' :: r1 =>
-    let (p, r2) := spanDigits r1
-    match r2 with
-    | 's' :: r3 => some ({ leftAdj := la, width, prec := some (digitsToNat p) }, r3)
+    match (spanDigits r1).2 with
+    | 's' :: r3 =>
+      some ({ leftAdj := la, width, prec := some (digitsToNat (spanDigits r1).1) }, r3)
     | _ => none
   | _ => none
 
-theorem spanDigits_length (t : Text) : (spanDigits t).2.length ≤ t.length := by
-  induction t with
-  | nil => simp [spanDigits]
-  | cons c cs ih =>
-    unfold spanDigits
-    split
-    · simp; omega
-    · simp
+/-- after `%`: `[-][width][.prec]s` -/
+def scanPSpec : Text → Option (PSpec × Text)
+  | '-' :: r => scanPSpecBody true r
+  | t => scanPSpecBody false t
 
-theorem scanPSpec_length {t r : Text} {s : PSpec} (h : scanPSpec t = some (s, r)) :
-    r.length < t.length := by
-  unfold scanPSpec at h
-  have key : ∀ (u : Text) (la : Bool), u.length ≤ t.length →
-      (let (w, r0) := spanDigits u
-       if w.head? = some '0' then none else
-       let width := digitsToNat w
-       match r0 with
-       | 's' :: r1 => some (({ leftAdj := la, width, prec := none } : PSpec), r1)
-       | '.' :: r1 =>
-         let (p, r2) := spanDigits r1
-         match r2 with
-         | 's' :: r3 => some ({ leftAdj := la, width, prec := some (digitsToNat p) }, r3)
-         | _ => none
-       | _ => none) = some (s, r) → r.length < t.length := by
-    intro u la hu hh
-    have h1 := spanDigits_length u
-    revert hh
-    generalize spanDigits u = p at h1 ⊢
-    obtain ⟨w, r0⟩ := p
-    simp only
-    split
-    · simp
-    · split
-      · intro hh; simp at hh; rw [← hh.2]; simp at h1; omega
-      · rename_i r1
-        have h2 := spanDigits_length r1
-        generalize spanDigits r1 = q at h2 ⊢
-        obtain ⟨p, r2⟩ := q
-        simp only
-        split
-        · intro hh; simp at hh; rw [← hh.2]; simp at h1 h2; omega
-        · simp
-      · simp
-  split at h
-  · rename_i r0
-    exact key r0 true (by simp) h
-  · exact key t false (Nat.le_refl _) h
-
-def scanPercent (t : Text) : Option (Except Err (List PItem)) :=
-  match t with
-  | [] => some (.ok [])
-  | '%' :: '%' :: rest =>
-    match scanPercent rest with
+/-- the template of `str.__mod__` on the sub-grammar literal | `%%` | `%[-][width][.prec]s`;
+    `none` = not modelled.  `fuel` bounds the number of iterations. -/
+def scanPercentGo : Nat → Text → Option (Except Err (List PItem))
+  | 0, _ => none
+  | _ + 1, [] => some (.ok [])
+  | fuel + 1, '%' :: '%' :: rest =>
+    match scanPercentGo fuel rest with
     | some (.ok items) => some (.ok (pushPLit '%' items))
     | r => r
-  | '%' :: rest =>
-    match h : scanPSpec rest with
+  | fuel + 1, '%' :: rest =>
+    match scanPSpec rest with
     | none => none
     | some (s, r) =>
-      match scanPercent r with
+      match scanPercentGo fuel r with
       | some (.ok items) => some (.ok (.hole s :: items))
       | x => x
-  | c :: rest =>
-    match scanPercent rest with
+  | fuel + 1, c :: rest =>
+    match scanPercentGo fuel rest with
     | some (.ok items) => some (.ok (pushPLit c items))
     | r => r
-termination_by t.length
-decreasing_by
-  all_goals simp_wf
-  all_goals (try omega)
-  have := scanPSpec_length h
-  omega
+
+def scanPercent (t : Text) : Option (Except Err (List PItem)) := scanPercentGo (t.length + 1) t
 
 /-- `'%[-][w][.p]s' % v` -/
 def pfmtStr (v : Text) (s : PSpec) : Text :=
